@@ -4,6 +4,7 @@ import Driver.Cssp
 import Driver.Gsess
 import RdpModel.Spec.Strict
 import RdpModel.Props.C17
+import RdpModel.Wire.Connector
 namespace Rdp.Driver
 open Rdp Rdp.Crypto Rdp.Nla Rdp.Emit Rdp.Global
 
@@ -77,6 +78,26 @@ def connOp (toks : List String) : String :=
         (if okc then "ok" else "E@connect") ++ " cr=" ++ toHex cr ++ " nla=" ++ hexOrDash nlaBytes ++ " frames=" ++ "+".intercalate (pre ++ fr ++ [dpu]) ++ " creds=" ++ creds ++ "\t-"
     | _, _, _, _, _, _ => "bad-case"
   | _, _, _, _, _, _, _ => "bad-case"
+
+/-- `tlsgate`: the connector trace model against a server whose certificate the platform
+    verifier does not trust (self-signed) and which otherwise lets everything succeed -/
+def tlsgateOp (toks : List String) : String :=
+  let b := fun k => kv toks k == some "1"
+  match (kv toks "sel").bind String.toNat? with
+  | some sel =>
+    let cfg : Connector.Config := ⟨b "nla", b "check", b "ra"⟩
+    -- the server's connection confirm: TYPE_RDP_NEG_RSP selecting `sel`
+    let confirm : Bytes := [0x0e, 0xd0, 0, 0, 0, 0, 0, 2, 0, 8, 0] ++ encInt .le 4 sel
+    let env : Connector.Env := ⟨confirm, false, true, 10⟩
+    let tr := Connector.trace cfg env
+    let up := tr.contains .tlsUp
+    let cred := tr.any (·.credentialBearing)
+    let okc := up   -- with a server that lets every later phase succeed
+    let model := "tls=" ++ (if up then "up" else "refused") ++ " cred=" ++ (if cred then "1" else "0") ++ " connect=" ++ (if okc then "ok" else "E")
+    -- property: with checking on, an untrusted certificate ends the connection before any credential-bearing message
+    let oracle := if b "check" then "tls=refused cred=0 connect=E" else "-"
+    model ++ "\t" ++ oracle
+  | none => "bad-case"
 
 /-- `strict <kind> <hex>`: the strict reference decoder on bytes the implementation wrote -/
 def strictOp (toks : List String) : String :=
